@@ -355,7 +355,7 @@ func jsonEquals(d *m.Design, a *m.Attr, raw []byte, v value.V) string {
 	if err != nil {
 		return fmt.Sprintf("body does not decode as %s: %v (%q)", d.Underlying(a), err, trunc(raw))
 	}
-	if msg := DiffAny(ExpectedVariants(d, a, Canonicalize(d, a, v)), ApplyDefaults(d, a, got)); msg != "" {
+	if msg := Match(d, a, Canonicalize(d, a, v), got, true, ""); msg != "" {
 		return "JSON on the wire differs from the value sent: " + msg
 	}
 	return ""
